@@ -31,8 +31,11 @@ VARIABLES i,
           f5,       \* [r][l] keys excused as missing by known finding F5 (until r receives them)
           swin,     \* [r][l] keys for which r received an operation while its sync was outstanding
           nclr,     \* [l] what the runtime has handed to the store for the lane = the fold of the lane events it has processed
+          unl,      \* [r][l] an unlink request was sent since the link was opened
+          nmin,     \* [r][l] <<>> or <<[key -> position], clear count>> remembered when a link / sync request was sent after
+                    \*        that unlink request while the old link was still open in the log
           late      \* [r][l] 1 if the lane had a backlog of events (performed, not yet processed by the runtime) when r's sync was requested
-vars == <<i, M, Hk, clears, open, pend, lp, lastClear, replica, full, synced, win, adm, alive, td, sfresh, wupd, f5, swin, nclr, late>>
+vars == <<i, M, Hk, clears, open, pend, lp, lastClear, replica, full, synced, win, adm, alive, td, sfresh, wupd, f5, swin, nclr, late, unl, nmin>>
 
 Has(e, f) == f \in DOMAIN e
 Max(a, b) == IF a > b THEN a ELSE b
@@ -54,7 +57,7 @@ StateFrom(maps) ==
     /\ adm' = RL([k \in Keys |-> {}]) /\ alive' = [r \in Remotes |-> TRUE]
     /\ td' = [l \in MLanes |-> <<>>]
     /\ sfresh' = RL(FALSE) /\ wupd' = RL({}) /\ f5' = RL({}) /\ swin' = RL({})
-    /\ nclr' = [l \in MLanes |-> Empty] /\ late' = RL(0)
+    /\ nclr' = [l \in MLanes |-> Empty] /\ late' = RL(0) /\ unl' = RL(FALSE) /\ nmin' = RL(<<>>)
 
 TraceInit ==
     /\ i = 1
@@ -65,7 +68,7 @@ TraceInit ==
     /\ adm = RL([k \in Keys |-> {}]) /\ alive = [r \in Remotes |-> TRUE]
     /\ td = [l \in MLanes |-> <<>>]
     /\ sfresh = RL(FALSE) /\ wupd = RL({}) /\ f5 = RL({}) /\ swin = RL({})
-    /\ nclr = [l \in MLanes |-> Empty] /\ late = RL(0)
+    /\ nclr = [l \in MLanes |-> Empty] /\ late = RL(0) /\ unl = RL(FALSE) /\ nmin = RL(<<>>)
     /\ TLCSet(1, 1) /\ TLCSet(2, {})
 
 \* earliest position p >= from of sequence s holding v (0 if none)
@@ -88,7 +91,7 @@ Step(e) ==
        /\ LaneSet(e.lane, e.k, IF e.m = "upd" THEN e.v ELSE -1)
        /\ wupd' = [r \in Remotes |-> [x \in MLanes |->
                       IF x = e.lane /\ win[r][x] > 0 /\ e.m = "upd" THEN wupd[r][x] \cup {e.k} ELSE wupd[r][x]]]
-       /\ UNCHANGED <<clears, open, pend, lp, lastClear, replica, full, synced, win, alive, td, sfresh, f5, swin, nclr, late>>
+       /\ UNCHANGED <<clears, open, pend, lp, lastClear, replica, full, synced, win, alive, td, sfresh, f5, swin, nclr, late, unl, nmin>>
     \/ /\ e.e = "op" /\ e.m = "clr"
        /\ LET l == e.lane IN
           /\ M' = [M EXCEPT ![l] = Empty]
@@ -97,10 +100,10 @@ Step(e) ==
           /\ nclr' = nclr
           /\ adm' = [r \in Remotes |-> [x \in MLanes |->
                        IF x = l /\ win[r][x] > 0 THEN [k \in Keys |-> adm[r][x][k] \cup {-1}] ELSE adm[r][x]]]
-       /\ UNCHANGED <<open, pend, lp, lastClear, replica, full, synced, win, alive, td, sfresh, wupd, f5, swin, late>>
+       /\ UNCHANGED <<open, pend, lp, lastClear, replica, full, synced, win, alive, td, sfresh, wupd, f5, swin, late, unl, nmin>>
     \/ /\ e.e = "td"
        /\ td' = [td EXCEPT ![e.lane] = <<IF e.m = "take" THEN TakeOf(M[e.lane], e.n) ELSE DropOf(M[e.lane], e.n)>>]
-       /\ UNCHANGED <<M, Hk, clears, open, pend, lp, lastClear, replica, full, synced, win, adm, alive, sfresh, wupd, f5, swin, nclr, late>>
+       /\ UNCHANGED <<M, Hk, clears, open, pend, lp, lastClear, replica, full, synced, win, adm, alive, sfresh, wupd, f5, swin, nclr, late, unl, nmin>>
     \/ /\ e.e = "req" /\ e.op \in {"link", "sync"}
        /\ LET r == e.r  l == e.lane  fresh == ~open[r][l] /\ ~pend[r][l] IN
           /\ pend' = [pend EXCEPT ![r][l] = TRUE]
@@ -114,9 +117,14 @@ Step(e) ==
           /\ wupd' = IF e.op = "sync" /\ win[r][l] = 0 THEN [wupd EXCEPT ![r][l] = {}] ELSE wupd
           /\ swin' = IF e.op = "sync" /\ win[r][l] = 0 THEN [swin EXCEPT ![r][l] = {}] ELSE swin
           /\ late' = IF e.op = "sync" /\ win[r][l] = 0 THEN [late EXCEPT ![r][l] = IF nclr[l] # M[l] THEN 1 ELSE 0] ELSE late
-       /\ UNCHANGED <<M, Hk, clears, open, replica, full, synced, alive, td, f5, nclr>>
+          \* a request sent after an unlink request, while the old link is still open in the log, starts the
+          \* NEXT episode: remember where the lane was
+          /\ nmin' = IF open[r][l] /\ unl[r][l] /\ nmin[r][l] = <<>>
+                        THEN [nmin EXCEPT ![r][l] = <<[k \in Keys |-> Len(Hk[l][k])], Len(clears[l])>>] ELSE nmin
+       /\ UNCHANGED <<M, Hk, clears, open, replica, full, synced, alive, td, f5, nclr, unl>>
     \/ /\ e.e = "req" /\ e.op = "unlink"
-       /\ UNCHANGED <<M, Hk, clears, open, pend, lp, lastClear, replica, full, synced, win, adm, alive, td, sfresh, wupd, f5, swin, nclr, late>>
+       /\ unl' = [unl EXCEPT ![e.r][e.lane] = TRUE]
+       /\ UNCHANGED <<M, Hk, clears, open, pend, lp, lastClear, replica, full, synced, win, adm, alive, td, sfresh, wupd, f5, swin, nclr, late, nmin>>
     \/ /\ e.e = "frame" /\ e.kind = "linked"
        /\ LET r == e.r  l == e.lane IN
           /\ open' = [open EXCEPT ![r][l] = TRUE]
@@ -124,10 +132,10 @@ Step(e) ==
              ELSE /\ replica' = [replica EXCEPT ![r][l] = Empty]
                   \* a remote that links while the map is empty needs no sync to have the full state
                   /\ full' = [full EXCEPT ![r][l] = (M[l] = Empty)]
-       /\ UNCHANGED <<M, Hk, clears, pend, lp, lastClear, synced, win, adm, alive, td, sfresh, wupd, f5, swin, nclr, late>>
+       /\ UNCHANGED <<M, Hk, clears, pend, lp, lastClear, synced, win, adm, alive, td, sfresh, wupd, f5, swin, nclr, late, unl, nmin>>
     \/ /\ e.e = "frame" /\ e.kind = "event"
        /\ LET r == e.r  l == e.lane IN
-          IF ~open[r][l] THEN UNCHANGED <<lp, lastClear, replica, f5, swin, nclr, late>>     \* outside a link: C04's business
+          IF ~open[r][l] THEN UNCHANGED <<lp, lastClear, replica, f5, swin, nclr, late, unl, nmin>>     \* outside a link: C04's business
           ELSE
             /\ ~Has(e, "bad")
             /\ \/ /\ e.m \in {"upd", "rem"} /\ e.k \in Keys
@@ -161,7 +169,7 @@ Step(e) ==
                   /\ replica' = [replica EXCEPT ![r][l] = Empty]
                   /\ f5' = [f5 EXCEPT ![r][l] = {}]
                   /\ swin' = swin
-       /\ UNCHANGED <<M, Hk, clears, open, pend, full, synced, win, adm, alive, td, sfresh, wupd, nclr, late>>
+       /\ UNCHANGED <<M, Hk, clears, open, pend, full, synced, win, adm, alive, td, sfresh, wupd, nclr, late, unl, nmin>>
     \/ /\ e.e = "frame" /\ e.kind = "synced"
        /\ LET r == e.r  l == e.lane IN
           /\ LET Bad == IF open[r][l] /\ win[r][l] > 0
@@ -190,26 +198,30 @@ Step(e) ==
           /\ synced' = [synced EXCEPT ![r][l] = TRUE]
           /\ full' = IF open[r][l] /\ win[r][l] > 0 THEN [full EXCEPT ![r][l] = TRUE] ELSE full
           /\ win' = [win EXCEPT ![r][l] = IF @ > 0 THEN @ - 1 ELSE 0]
-       /\ UNCHANGED <<M, Hk, clears, open, pend, lp, lastClear, replica, adm, alive, td, sfresh, wupd, swin, nclr, late>>
+       /\ UNCHANGED <<M, Hk, clears, open, pend, lp, lastClear, replica, adm, alive, td, sfresh, wupd, swin, nclr, late, unl, nmin>>
     \/ /\ e.e = "frame" /\ e.kind = "unlinked"
        /\ LET r == e.r  l == e.lane IN
           /\ open' = [open EXCEPT ![r][l] = FALSE]
-          /\ pend' = [pend EXCEPT ![r][l] = FALSE]
+          /\ pend' = [pend EXCEPT ![r][l] = (nmin[r][l] # <<>>)]
+          /\ lp' = IF nmin[r][l] # <<>> THEN [lp EXCEPT ![r][l] = [k \in Keys |-> Max(@[k], nmin[r][l][1][k])]] ELSE lp
+          /\ lastClear' = IF nmin[r][l] # <<>> THEN [lastClear EXCEPT ![r][l] = Max(@, nmin[r][l][2])] ELSE lastClear
+          /\ unl' = [unl EXCEPT ![r][l] = FALSE]
+          /\ nmin' = [nmin EXCEPT ![r][l] = <<>>]
           /\ win' = win      \* a sync requested after the unlink request is answered after this frame
           /\ synced' = [synced EXCEPT ![r][l] = FALSE]
           /\ full' = [full EXCEPT ![r][l] = FALSE]
           /\ f5' = [f5 EXCEPT ![r][l] = {}]
           /\ swin' = [swin EXCEPT ![r][l] = {}]
-       /\ UNCHANGED <<M, Hk, clears, lp, lastClear, replica, adm, alive, td, sfresh, wupd, nclr, late>>
+       /\ UNCHANGED <<M, Hk, clears, replica, adm, alive, td, sfresh, wupd, nclr, late>>
     \/ /\ e.e \in {"sclr", "supd", "srem"}       \* a store call: the runtime has processed that lane event
        /\ nclr' = [nclr EXCEPT ![e.lane] = IF e.e = "sclr" THEN Empty
                                            ELSE IF e.k \in Keys THEN [@ EXCEPT ![e.k] = IF e.e = "supd" THEN e.v ELSE -1] ELSE @]
-       /\ UNCHANGED <<M, Hk, clears, open, pend, lp, lastClear, replica, full, synced, win, adm, alive, td, sfresh, wupd, f5, swin, late>>
+       /\ UNCHANGED <<M, Hk, clears, open, pend, lp, lastClear, replica, full, synced, win, adm, alive, td, sfresh, wupd, f5, swin, late, unl, nmin>>
     \/ /\ e.e = "mark"      \* some other request was sent (delimits the operations of a take / drop command)
-       /\ UNCHANGED <<M, Hk, clears, open, pend, lp, lastClear, replica, full, synced, win, adm, alive, td, sfresh, wupd, f5, swin, nclr, late>>
+       /\ UNCHANGED <<M, Hk, clears, open, pend, lp, lastClear, replica, full, synced, win, adm, alive, td, sfresh, wupd, f5, swin, nclr, late, unl, nmin>>
     \/ /\ e.e = "gone"
        /\ alive' = [alive EXCEPT ![e.r] = FALSE]
-       /\ UNCHANGED <<M, Hk, clears, open, pend, lp, lastClear, replica, full, synced, win, adm, td, sfresh, wupd, f5, swin, nclr, late>>
+       /\ UNCHANGED <<M, Hk, clears, open, pend, lp, lastClear, replica, full, synced, win, adm, td, sfresh, wupd, f5, swin, nclr, late, unl, nmin>>
     \/ /\ e.e = "quiescent"
        \* convergence: a drained, linked remote that holds the full state holds exactly the lane's map
        /\ \A x \in 1..Len(e.drained) : \A l \in MLanes :
@@ -217,7 +229,7 @@ Step(e) ==
              (alive[r] /\ open[r][l] /\ full[r][l]) =>
                 \A k \in Keys : \/ replica[r][l][k] = M[l][k]
                                 \/ (k \in f5[r][l] /\ replica[r][l][k] = -1 /\ TLCSet(2, TLCGet(2) \cup {"F5"}))
-       /\ UNCHANGED <<M, Hk, clears, open, pend, lp, lastClear, replica, full, synced, win, adm, alive, td, sfresh, wupd, f5, swin, nclr, late>>
+       /\ UNCHANGED <<M, Hk, clears, open, pend, lp, lastClear, replica, full, synced, win, adm, alive, td, sfresh, wupd, f5, swin, nclr, late, unl, nmin>>
 
 \* a take / drop command has been processed once something other than its own lane operations is
 \* logged: the lane must then hold exactly the entries designated by the documented key order
@@ -230,7 +242,7 @@ TraceNext ==
        IF TDDue(e)
          THEN /\ TDOk(e)
               /\ td' = [l \in MLanes |-> IF ~(e.e = "op" /\ e.lane = l) THEN <<>> ELSE td[l]]
-              /\ UNCHANGED <<i, M, Hk, clears, open, pend, lp, lastClear, replica, full, synced, win, adm, alive, sfresh, wupd, f5, swin, nclr, late>>
+              /\ UNCHANGED <<i, M, Hk, clears, open, pend, lp, lastClear, replica, full, synced, win, adm, alive, sfresh, wupd, f5, swin, nclr, late, unl, nmin>>
          ELSE /\ Step(e)
               /\ i' = i + 1
               /\ TLCSet(1, Max(TLCGet(1), i + 1))
